@@ -3,7 +3,9 @@
 Require Extraction.
 Require Import ExtrOcamlBasic.
 From EPD Require Import Iface Ops Hal Run Panels.
+From EPD Require Big.Model.
 Extraction Language OCaml.
 Separate Extraction
   Iface.bapply Iface.calls Ops.op Ops.mkFeat Hal.expand Hal.mk_cfg Hal.den Run.call Run.construct Run.icalls_of
-  Panels.driver_of Panels.all_panels.
+  Panels.driver_of Panels.all_panels
+  Iface.dlen Big.Model.exec Big.Model.bexpand Big.Model.call Big.Model.new_control_state.
